@@ -355,6 +355,41 @@ def run(tier, seed):
                 if "ok" in io_:
                     case["impl"] = io_
                     run.fail(case, "out-of-range union index %d decoded to a value when a reader schema is given" % bad, kind="oracle")
+    # ---------------- (2d) a bad union index INSIDE a value the reader schema drops, the value being an array / a map written as
+    # blocks with a negative count and a byte size (the size is consistent, so stepping over the block by its size "works"):
+    # the out-of-range index is still an error
+    for cont in ("array", "map"):
+        for place in ("first", "second", "second-block"):
+            for bad in (2, 7, 64, 2 ** 33, -1, -3):
+                u = ["null", "string"]
+                t = {"type": "array", "items": u} if cont == "array" else {"type": "map", "values": u}
+                w = {"type": "record", "name": "Skp", "fields": [{"name": "a", "type": "int"}, {"name": "dropped", "type": t}, {"name": "b", "type": "string"}]}
+                rs = {"type": "record", "name": "Skp", "fields": [{"name": "a", "type": "int"}, {"name": "b", "type": "string"}]}
+                key_ = (enc_long(1) + b"k") if cont == "map" else b""
+                good_item = key_ + enc_long(1) + enc_long(1) + b"x"
+                bad_item = key_ + enc_long(bad)
+                if place == "first":
+                    items, blocks = [bad_item, good_item], None
+                elif place == "second":
+                    items, blocks = [good_item, bad_item], None
+                else:
+                    items, blocks = None, [[good_item], [good_item, bad_item]]
+
+                def block(its):
+                    body = b"".join(its)
+                    return enc_long(-len(its)) + enc_long(len(body)) + body
+                payload = block(items) if blocks is None else b"".join(block(x) for x in blocks)
+                b = enc_long(1) + payload + enc_long(0) + enc_long(2) + b"hi"
+                for reader in (rs, None):
+                    io_ = read_impl(fastavro.parse_schema(json.loads(json.dumps(w))), b, json.loads(json.dumps(reader)) if reader else None)
+                    case = {"schema": w, "reader_schema": reader, "bytes": b.hex(), "bad_index": bad, "branches_or_symbols": 2,
+                            "tags": ["bad-index", "inside-sized-block", cont, place, "skipped" if reader else "read"]}
+                    run.count(case, True, ["bad-index:inside-sized-block"])
+                    run.cov["traces_validated_against_impl"] += 1
+                    if "ok" in io_:
+                        case["impl"] = io_
+                        run.fail(case, "out-of-range union index %d inside a block with a byte size decoded to a value%s" % (bad, " when the value is skipped" if reader else ""),
+                                 kind="oracle")
     # ---------------- (3) proper prefixes
     pre = []
     for (s, ps, nf, b, nb, std) in base[:scale(tier, 300)]:
